@@ -4,6 +4,7 @@ import (
 	"errors"
 	"fmt"
 	"strings"
+	"sync/atomic"
 	"time"
 
 	"github.com/zeromicro/go-zero/core/syncx"
@@ -347,6 +348,9 @@ func limitOverReturnCase(c *kit.Case) {
 	k := r.Range(1, 8)
 	plan := map[string]any{"primitive": ad.name, "n": n, "held_before": h, "returns": h + k}
 	m := newMon(c, ad.name, n, plan)
+	if skipAfterLeak(c, ad.name+"/over-return-race") {
+		return
+	}
 	for i := 0; i < h; i++ {
 		if r.Bool() {
 			ad.borrow(time.Second)
@@ -356,19 +360,34 @@ func limitOverReturnCase(c *kit.Case) {
 			return
 		}
 	}
-	l := newLauncher(launchGo)
+	// every Return has to return: one that does not is decided by state (orrAwait, ext_test.go),
+	// not by sitting out the watchdog
 	start := make(chan struct{})
 	var nils, errs, other = new(int64), new(int64), new(int64)
 	res := make([]error, h+k)
+	var ready, done atomic.Int64
 	for i := 0; i < h+k; i++ {
-		i := i
-		l.start(m, func() {
+		go func(i int) {
 			<-start
-			res[i] = ad.ret()
-		})
+			orrReturner(ad.ret, &ready, &done, 0, &res[i])
+		}(i)
 	}
 	close(start)
-	if !m.await(l.done(), "concurrent Returns") {
+	switch orrAwait(&done, int64(h+k)) {
+	case "watchdog":
+		c.Inconclusive(fmt.Sprintf("%s: concurrent Returns did not finish within %v and no stable state was reached", ad.name, caseWatchdog))
+		m.finish()
+		return
+	case "blocked":
+		d := done.Load()
+		stuck := int(int64(h+k) - d)
+		m.viol("over-return/return-blocks", fmt.Sprintf("%s of %d with %d permits out and %d concurrent Returns: %d returned, %d are parked inside Return although nobody else uses the limit (identical state in %d consecutive dumps) - an excess Return has to report ErrLimitReturn, it must not wait for the next borrower",
+			ad.name, n, h, h+k, d, stuck, stuckSamples), map[string]any{"returned": d, "parked_in_return": stuck, "goroutines": stacksBrief()})
+		leakVerdict(ad.name + "/over-return-race")
+		for i := 0; i < stuck; i++ {
+			ad.try() // wakes a parked Return (which takes the permit away again)
+		}
+		waitUntil(func() bool { return done.Load() == int64(h+k) }, 20*time.Second)
 		m.finish()
 		return
 	}
